@@ -242,44 +242,52 @@ def direct_oracle(c, out, tid):
     return None
 
 
-def compare(c, iv, mv):
+def judge(c, iv, mv):
+    """('ok', None) | ('fail', text): the property fails on this case | ('corr', text): the line still
+    denotes exactly the record but its bytes are not the model's (e.g. members reordered)"""
     if not (isinstance(iv, list) and len(iv) == 3 and isinstance(iv[0], bytes)):
-        return "encode failed or panicked: %r" % (iv,)
+        return ("fail", "encode failed or panicked: %r" % (iv,))
     out, tid, order = iv
     keys = sorted(_b(k) for k, _ in c[7])
     if sorted(order) != keys:
-        return "log_mdc iteration keys %r differ from the installed MDC %r" % (order, keys)
+        return ("fail", "log_mdc iteration keys %r differ from the installed MDC %r" % (order, keys))
     d = direct_oracle(c, out, tid)
     if d is not None:
-        return d
+        return ("fail", d + ("" if out == mv else " [impl %r model %r]" % (out, mv)))
     if out != mv:
-        # the line still denotes exactly the record (the property holds on this case) but its bytes
-        # are not the model's: the model no longer describes the code (e.g. members reordered) --
-        # DESIGN 2.4: the correspondence itself is broken, no failing input
-        import vcommon
-        raise vcommon.Broken("corr:C12/output-bytes",
-                             "property oracle passes but bytes differ from the model: impl %r model %r" % (out, mv))
-    return None
+        return ("corr", "property oracle passes but bytes differ from the model: impl %r model %r" % (out, mv))
+    return ("ok", None)
+
+
+def compare(c, iv, mv):
+    k, d = judge(c, iv, mv)
+    return d if k == "fail" else None
 
 
 def extra_checks(ctx, cases_, impl_lines, model_lines_):
-    """direct property oracle over the whole run, independent of the model (the same oracle is part
-    of compare, so a failing case is also replayable): json.loads of every line returns exactly the
-    record's fields and the raw bytes hold exactly one newline, at the end"""
+    """(a) the model's own bytes must satisfy the direct JSON oracle too (model, Coq spec and Python's
+    json agree); (b) DESIGN 2.4: if no case violates the property but some outputs differ from the
+    model, the correspondence itself is broken (no failing input)"""
     vc = ctx["vc"]
     bad = []
+    corr = None
+    real = False
     for c, il, ml in zip(cases_, impl_lines, model_lines_):
         try:
-            iv = vc.parse(il)
-            mv = vc.parse(ml)
+            iv, mv = vc.parse(il), vc.parse(ml)
         except Exception:
+            return []
+        k, d = judge(c, iv, mv)
+        if k == "fail":
+            real = True
             continue
-        if compare(c, iv, mv) is not None:
-            continue          # already reported by the per-case comparison
-        # the model's own bytes must satisfy the oracle too (model and spec agree with Python's json)
-        d = direct_oracle(c, mv, iv[1])
-        if d is not None:
-            bad.append(("model output fails the direct JSON oracle: " + d,
-                        {"case_line": vc.show(c), "case": describe(c), "model": vc.jsonable(mv)}))
-            break
+        if k == "corr" and corr is None:
+            corr = d
+        if k == "ok" and not bad:
+            d = direct_oracle(c, mv, iv[1])
+            if d is not None:
+                bad.append(("model output fails the direct JSON oracle: " + d,
+                            {"case_line": vc.show(c), "case": describe(c), "model": vc.jsonable(mv)}))
+    if corr is not None and not real:
+        raise vc.Broken("corr:C12/output-bytes", corr)
     return bad
